@@ -493,7 +493,13 @@ Var& Var::operator[](const String& k)
 	else if (_type == OBJ)
 		return (*_o)[k];
 	else if (_type == ARRAY)
-		return (*this)[(int)k]; // like the int index: grows the array instead of indexing beyond it
+	{
+		int i = (int)k;
+		if (i >= 0)
+			return (*this)[i]; // like the int index: grows the array instead of indexing beyond it
+		asl_error("Var[String] negative index on array");
+		return *this;
+	}
 	asl_error("Var[String] on non object");
 	return *this;
 }
